@@ -67,7 +67,11 @@ MATCHES = [
 ]
 ACTIONS = [[dict(type=0, port=2, max_len=0)],
            [dict(type=0, port=3, max_len=0)],
-           [dict(type=0, port=2, max_len=0), dict(type=0, port=3, max_len=0)]]
+           [dict(type=0, port=2, max_len=0), dict(type=0, port=3, max_len=0)],
+           # actions that change the frame's length on its way out: an entry
+           # counts the bytes of the packets that *matched* it
+           [dict(type=1, vlan_vid=7), dict(type=0, port=2, max_len=0)],
+           [dict(type=3), dict(type=0, port=3, max_len=0)]]
 
 _src = bytes.fromhex("020000000001"); _dst = bytes.fromhex("020000000002")
 FRAMES = [
@@ -79,6 +83,9 @@ FRAMES = [
             F.tcp(1, 2, b"", src=0xc0a80001, dst=0x0a020001)))),
   (4, F.eth(_dst, _src, 0x0806, F.arp(1, _src, 0x0a000001, b"\0" * 6,
                                       0x0a000002))),
+  (1, F.eth(_dst, _src, 0x0800, F.ipv4(0x0a090909, 0x0a010203, 17,
+            F.udp(7, 9, b"t" * 30, src=0x0a090909, dst=0x0a010203)),
+            vlan=(3, 0, 100))),
 ]
 
 # an entry without any wildcard (it ranks above every wildcarded entry
@@ -374,7 +381,9 @@ def alphabet ():
       A.append(["fm", 4, mi, prio, 0, 0xffff, 0, 0, 0])
     A.append(["fm", 3, mi, 0, 0, 0xffff, 0, 0, 0])
     A.append(["fm", 3, mi, 0, 0, 3, 0, 0, 0])
-  A += [["pkt", 0], ["pkt", 1], ["tick", 4], ["sweep"]]
+  A.append(["fm", 0, 0, 2, SFR, 0xffff, 0, 7, 3])
+  A.append(["fm", 0, 5, 1, SFR, 0xffff, 0, 7, 4])
+  A += [["pkt", 0], ["pkt", 1], ["pkt", 4], ["tick", 4], ["sweep"]]
   return A
 
 SUFFIX = [["pkt", 0], ["tick", 2], ["sweep"], ["pkt", 1], ["tick", 3],
@@ -405,7 +414,7 @@ def gen_random (rng, count, maxlen):
                     rng.choice([0xffff, 0xffff, 2, 3]) if cmd in (3, 4)
                     else 0xffff,
                     rng.choice([0, 0, 3, 7]), rng.choice([0, 0, 3, 7]),
-                    rng.randrange(3)])
+                    rng.randrange(len(ACTIONS))])
       elif r < 0.8:
         ops.append(["pkt", rng.randrange(len(FRAMES))])
       elif r < 0.9:
